@@ -1307,7 +1307,11 @@ impl Gen {
                         });
                     }
                 }
-                WFrame::Settings { ack: self.rng.chance(1, 4), vals }
+                let ack = self.rng.chance(1, 4);
+                if ack {
+                    vals = [None; 7]; // Settings::ack() carries no parameters
+                }
+                WFrame::Settings { ack, vals }
             }
             9 => {
                 let mut p = [0u8; 8];
